@@ -16,6 +16,7 @@ fi
 find "$wt" -name target -prune -o \( -name "*.rs" -o -name Cargo.toml \) -print0 | xargs -0 touch
 export VERIF_CACHE_TAG=_seed
 export VERIF_EVIDENCE_DIR=/verif/.cache/evidence_seed
+export VERIF_REPLAY_TAG=_$name
 # seed slots start as copies of the real slots (saves the dependency build)
 for c in /verif/.cache/slots/*; do
   cn=$(basename $c)
